@@ -407,6 +407,26 @@ func c10FmtP(p c10P) string {
 	return fmt.Sprintf("{size=%d cur=%d view=%v wview=%v}", p.Size, p.Cur, p.View, p.Wview)
 }
 
+// c10RdTrack notices a reader (dm.read) that outlives a change of dm.curNode: as built, Truncate and
+// expandSparse keep it, and reading through it serves the old DAG -- or never returns, when the old
+// root object was re-linked in place under the walker.  The harness therefore does not perform such
+// a Read; "the reader survived" is reported as the as-built outcome instead.
+type c10RdTrack struct {
+	rd  uio.DagReader
+	cid cid.Cid
+}
+
+func (t *c10RdTrack) after(dm *DagModifier) {
+	if dm.read == nil {
+		t.rd = nil
+	} else if dm.read != t.rd {
+		t.rd, t.cid = dm.read, dm.curNode.Cid()
+	}
+}
+func (t *c10RdTrack) stale(dm *DagModifier) bool {
+	return dm.read != nil && dm.read == t.rd && dm.wrBuf == nil && !dm.curNode.Cid().Equals(t.cid)
+}
+
 // c10Found is one disagreement with the file model that is exactly an as-built alternative.
 type c10Found struct {
 	step int
@@ -428,6 +448,9 @@ func c10RunOne(b *c10Beh, c c10Cfg) (found []c10Found, step int, what string) {
 	}
 	dm, ds, err := c10Start(content, c)
 	if err != nil {
+		if c.Ident && strings.Contains(err.Error(), c10IdentErr) {
+			return nil, 0, "" // the importer itself cannot build this file under an identity prefix: not the modifier's business
+		}
 		return nil, -1, "setup: " + err.Error()
 	}
 	// (an empty file is a childless node in every layout; with no inline bytes its kind is immaterial)
@@ -435,8 +458,10 @@ func c10RunOne(b *c10Beh, c c10Cfg) (found []c10Found, step int, what string) {
 		return nil, -1, fmt.Sprintf("setup: root kind %s but behaviour wants %s", k, b.Init.Root)
 	}
 	follow := false // false: expectations of the file model; true: follow track
+	var track c10RdTrack
 	for i := range b.Steps {
 		st := &b.Steps[i]
+		track.after(dm)
 		expR, expP, alts, amb := st.R, st.P, st.Alts, st.Amb
 		if follow {
 			if st.Fo.Wild || st.Fo.P.Wild {
@@ -446,6 +471,17 @@ func c10RunOne(b *c10Beh, c c10Cfg) (found []c10Found, step int, what string) {
 		}
 		if amb {
 			return found, 0, ""
+		}
+		if st.Op == "Read" && track.stale(dm) {
+			what := c10Desc(st) + " would go through a reader that was opened before curNode changed (it serves the old DAG or never returns)"
+			for _, a := range alts {
+				for _, dv := range a.Devs {
+					if dv == "Dev_C10_StaleReader" {
+						return append(found, c10Found{i + 1, what, []string{dv}}), 0, ""
+					}
+				}
+			}
+			return found, i + 1, what
 		}
 		real := c10Do(dm, ds, st, c.CtxRead)
 		sameR := c10SameR(st.Op, real, expR)
@@ -475,7 +511,9 @@ func c10RunOne(b *c10Beh, c c10Cfg) (found []c10Found, step int, what string) {
 		}
 		// 2. identity-hash prefix: re-rooting outside Sync adds an oversized identity block
 		if c.Ident {
-			doProbe()
+			if sameR {
+				doProbe()
+			}
 			xp := st.Xp || (follow && st.Fo.Xp)
 			for _, a := range alts {
 				xp = xp || (a.Xp && (c10SameR(st.Op, real, a.R) || strings.Contains(real.ErrStr, c10IdentErr)))
@@ -722,12 +760,16 @@ func c10Record(t *testing.T) {
 		content := c10RandBytes(rng, size)
 		dm, ds, err := c10Start(content, c)
 		if err != nil {
-			vEmit(M{"ev": "Broken", "what": "setup " + c.String() + ": " + err.Error()})
+			if !(c.Ident && strings.Contains(err.Error(), c10IdentErr)) { // (importer limit under an identity prefix)
+				vEmit(M{"ev": "Broken", "what": "setup " + c.String() + ": " + err.Error()})
+			}
 			continue
 		}
 		vEmit(M{"ev": "Reset", "content": c10Syms(content), "root": c10RootKind(dm.curNode), "ident": c.Ident, "cfg": c.String()})
 		cur := 0 // only used to aim offsets; the model does not see it
+		var track c10RdTrack
 		for i := 0; i < nops; i++ {
+			track.after(dm)
 			sz64, _ := dm.Size()
 			sz := int(sz64)
 			st := &c10Step{}
@@ -776,6 +818,11 @@ func c10Record(t *testing.T) {
 			default:
 				st.Op = "GetNode"
 			}
+			if st.Op == "Read" && track.stale(dm) {
+				// not performed (see c10RdTrack); the rest of this run is not logged
+				vEmit(M{"ev": "Read", "b": []int{}, "o": 0, "w": 0, "k": st.K, "stale": true, "r": M{}, "p": M{}})
+				break
+			}
 			r := c10Do(dm, ds, st, c.CtxRead)
 			p := c10Probe(dm, ds)
 			wpos, wok := c10WPos(p.View, p.Wview)
@@ -791,7 +838,7 @@ func c10Record(t *testing.T) {
 			if p.View == nil {
 				p.View = []int{}
 			}
-			vEmit(M{"ev": st.Op, "b": st.B, "o": st.O, "w": st.W, "k": st.K,
+			vEmit(M{"ev": st.Op, "b": st.B, "o": st.O, "w": st.W, "k": st.K, "stale": false,
 				"r": M{"n": r.N, "err": r.Err, "eof": r.Eof, "data": r.Data, "ret": r.Ret, "errstr": r.ErrStr,
 					"identerr": strings.Contains(r.ErrStr, c10IdentErr), "fetcherr": strings.Contains(r.ErrStr, c10FetchErr)},
 				"p": M{"fail": p.Fail, "size": p.Size, "cur": p.Cur, "view": p.View, "wpos": wpos, "wok": wok,
